@@ -34,11 +34,21 @@ TakeWord(l) == IF l = <<>> \/ Head(l) \in Blank THEN <<>> ELSE <<Head(l)>> \o Ta
 
 FirstToken(l) == TakeWord(SkipBlank(l))
 
+(* HAProxy removes quotes and escapes from every word of a line, the keyword included (configuration manual, "Quoting and
+   escaping"): "a" b, 'a' b and \a b are the keyword a.  Unquote is exact for the texts used here (no escaped blank, no \xNN). *)
+QuoteChars == {"\"", "'", "\\"}
+Unquote(t) == SelectSeq(t, LAMBDA c : c \notin QuoteChars)
+Quoted(t) == \E i \in 1..Len(t) : t[i] \in QuoteChars
+
 (* kws: set of keywords (character sequences); the empty keyword is ignored *)
 Dropped(s, kws) ==
     /\ Lines(s) # <<>>
     /\ \/ <<"*">> \in kws
-       \/ \E i \in 1..Len(Lines(s)) : FirstToken(Lines(s)[i]) \in (kws \ {<<>>})
+       \/ \E i \in 1..Len(Lines(s)) : Unquote(FirstToken(Lines(s)[i])) \in (kws \ {<<>>})
+(* a controller that does not unquote may refuse what it cannot decide: a quoted first word while some keyword is disabled *)
+MayDrop(s, kws) ==
+    /\ Lines(s) # <<>> /\ (kws \ {<<>>}) # {}
+    /\ \E i \in 1..Len(Lines(s)) : Quoted(FirstToken(Lines(s)[i]))
 
 (* --disable-config-keywords is a comma separated list: blanks around an item do not belong to it, empty items are ignored *)
 RECURSIVE SplitComma(_)
@@ -80,6 +90,12 @@ CommentTexts == CommentLines
                 \cup {l1 \o <<"\n">> \o l2 : l1 \in ShortLines, l2 \in CommentLines}
 InitComments == txt \in CommentTexts
 SpecComments == InitComments /\ [][Next]_txt
+(* quoted and escaped first words *)
+QuoteLines == {<<"\"", "a", "\"">>, <<"\"", "a", "\"", " ", "b">>, <<"'", "a", "'", " ", "b">>, <<"\\", "a", " ", "b">>, <<" ", "\"", "A", "\"">>,
+               <<"b", " ", "\"", "a", "\"">>, <<"a", "\"", "\"">>}
+QuoteTexts == QuoteLines \cup {l1 \o <<"\n">> \o l2 : l1 \in ShortLines, l2 \in QuoteLines}
+InitQuotes == txt \in QuoteTexts
+SpecQuotes == InitQuotes /\ [][Next]_txt
 InitMixed == txt \in MixedTexts
 SpecMixed == InitMixed /\ [][Next]_txt
 
